@@ -27,6 +27,7 @@ CONFIG = {
         "letters + spaces, any padding 0..3: the private-use part is well-formed and bcp47ToOtf recovers (script, language) from its lower-cased form), otf_tag_there_and_back (under xtext_spec; "
         "otfToBCP47 errs exactly on a script or non-empty language outside the tables), builtin_tags_all_convert (finite over the regenerated scriptBcp47/langBcp47: every tag has the shape, every pair "
         "converts and comes back, incl. \"yi  \", \"HO  \", \"WA  \"), xtext_spec_satisfiable, trim_one_space_refuted (seed C08-j), shape_needed_refuted; "
+        "plain_tag_is_function (bcp47ToOtf on a tag WITHOUT an x extension - the Chinese special cases and the two table searches, which keep the smallest matching OpenType tag after fixes/C08-bcp47-plain-tag-deterministic.diff - gives the same answer for every iteration order of langBcp47 and scriptBcp47; the search shape is regenerated from the source: a return to break-on-first-match flips the regenerated flag and breaks the proof), plain_tag_as_found_refuted (bn-Beng: beng in one order, bng2 in another), scriptlist_plain_keys_function (ScriptListInfo.encode with x-extension or plain keys does not depend on the order of the two tables); "
         "scriptlist_tags_all_survive (C08's scriptlist_roundtrip composed with the conversion: for every finite map from distinct built-in (script, language) pairs to language systems - equal to the "
         "default or not - whatever encode writes, readScriptList assigns exactly these language systems to exactly these pairs) and drop_equal_default_refuted (seed C14-i); c14b_total. "
         "Tie: translator items name.Table's string fields and map field, the case-label -> field correspondence of get and of set, the loop bound and the Extra filter bound of keys (coq/Gen/C14B.v), "
@@ -37,7 +38,7 @@ CONFIG = {
     ),
     "level_note": (
         "Partial: golang.org/x/text is a Section variable (xtext_spec); the extracted model runs with the stand-in xtext_strict (meets xtext_spec, rejects ill-formed private-use parts) and every case "
-        "compares the extension string x/text really returns. bcp47ToOtf's branches for tags WITHOUT an x extension (Chinese special cases, Raw/Script lookups) are outside the model. "
+        "compares the extension string x/text really returns. bcp47ToOtf's branch for tags WITHOUT an x extension is modelled on what x/text reports of the tag (Chinese special case, Raw language, Script), which the case line carries and the harness re-derives; two plain keys that name the same (script, language) pair (e.g. two unknown languages of one script) remain order-dependent in encode and are not generated. "
         "Decode's byte parsing is C14's M_name_decode (imported); the struct level is its concretisation, tied by decode_steps_refine. The two unguarded 16-bit limits of Encode (C14's open findings) "
         "are hypotheses here as there. ScriptListInfo == nil (encode returns nil) and duplicate (script, language) pairs under different BCP 47 keys are not modelled."
     ),
